@@ -553,6 +553,11 @@ func Pow(y tensor.Tensor, x tensor.Tensor, a float64) (gctx *GradContext) {
 			{
 				target: x,
 				gradFn: func() (tensor.Tensor, error) {
+					// x^0 is constant: avoid 0 * x^(-1), which is NaN at x = 0
+					if a == 0 {
+						return toZeros(x), nil
+					}
+
 					gy := y.Gradient()
 					gx := x.Pow(a - 1)
 					gx = gx.Scale(a)
